@@ -27,7 +27,7 @@ class C15(Check):
         creds = [[True], [False], [False, True], [False, False], []]
         # known_hosts 'i': the server's key is listed under the ADDRESS the connection happens to reach (and [address]:port), not under the
         # host the caller named - for the verification that is a host without an entry
-        for verify, known, pinned, cb, profile, auths in itertools.product((True, False), 'ahpdi', 'amd', (True, False),
+        for verify, known, pinned, cb, profile, auths in itertools.product((True, False), 'ahpdiw', 'amd', (True, False),
                                                                            ('default', 'junos', 'iosxe', 'iosxr', 'csr'), creds):
             for subs in ([True], [False]) if (profile == 'default' and auths == [True]) else ([True],):
                 out.append({'kind': 'ssh', 'verify': verify, 'known': known, 'pinned': pinned, 'cb': cb, 'profile': profile, 'negotiates': True,
@@ -79,6 +79,9 @@ class C15(Check):
             for chk in (True, False):
                 out.append({'kind': 'tls', 'trust': 'wrong-ca', 'protocol': proto, 'check_hostname': chk})
                 out.append({'kind': 'tls', 'trust': 'right-ca', 'protocol': proto, 'check_hostname': chk})
+            # ... and, with checking ON, against certificates of the right CA issued to another name / another device
+            for t in ('wrong-hostname', 'other-device-cert', 'wrong-ip'):
+                out.append({'kind': 'tls', 'trust': t, 'protocol': proto, 'check_hostname': True})
         return out
 
     def run_impl(self, case):
@@ -133,7 +136,7 @@ class C15(Check):
 
     def _line(self, case):
         cb = True if case['profile'] in OVERRIDING else bool(case['cb'])
-        return 'cn ssh %d %s %s %d %d %s %s' % (case['verify'], 'a' if case['known'] == 'i' else case['known'], case['pinned'], cb, case['negotiates'], bits(case['auths']), bits(case['subs']))
+        return 'cn ssh %d %s %s %d %d %s %s' % (case['verify'], 'a' if case['known'] in 'iw' else case['known'], case['pinned'], cb, case['negotiates'], bits(case['auths']), bits(case['subs']))
 
     def model_lines(self, case):
         if case['kind'] == 'sshseq':
